@@ -260,7 +260,7 @@ if exp is not None:
     print("relative distance of C to the reference law:", d)
 else:
     d = 0.0
-sys.exit(1 if (e1 > 1e-8 or e2 > 1e-10 or lam <= 0 or d > 1e-9) else 0)
+sys.exit(1 if (e1 > 1e-8 or e2 > 1e-10 or lam <= 0 or d > %(tol)r) else 0)
 '''
 
 
@@ -293,7 +293,7 @@ sys.path.insert(0, %(verif)r)
 from corr import c11_impl
 r = c11_impl.run_purity(%(case)r)
 print(json.dumps(r, indent=1))
-bad = bool(r["modified"]) or r["repeat_err"] > 1e-12
+bad = bool(r["modified"]) or r["repeat_err"] > (1e-9 if %(case)r.get("what") == "out" else 1e-12)
 print("array arguments modified in place:", r["modified"] or "none", "; repeatability error:", r["repeat_err"], r.get("repeat_step", ""))
 sys.exit(1 if bad else 0)
 '''
@@ -447,7 +447,9 @@ def relerr(impl, model):
     impl, model = np.asarray(impl, dtype=float), np.asarray(model, dtype=float)
     if impl.shape != model.shape:
         return float("inf")
-    return float(np.abs(impl - model).max() / max(1.0, np.abs(model).max()))
+    # purely RELATIVE to the magnitude of the reference (no absolute floor: the laws are homogeneous in the moduli)
+    scale = float(np.abs(model).max())
+    return float(np.abs(impl - model).max() / (scale if scale > 0 else 1.0))
 
 
 def build_cases(ctx, lw):
@@ -494,6 +496,32 @@ def build_cases(ctx, lw):
                     meta["law"].append({"cfg": "3d", "field": field, "shape": shp, "pts": pts, "group": len(req["law"]) - 1, "akind": "id-ref", "ref": True})
                     for k in range(grp, grp + 3):
                         meta["law"][k]["idref"] = len(req["law"]) - 1
+    # ---- near-special material frames (tiny rotations of the global axes: 1e-2 deg, 5e-5 deg, 1e-7 rad) and scaled twins
+    #      of the moduli (x 2^+-40: the laws are homogeneous of degree 1 in the moduli, S of degree -1)
+    MODULI = {"Isotropic": ["E"], "TransverselyIsotropic": ["El", "Et", "Gl"], "Orthotropic": ["E1", "E2", "E3", "G23", "G13", "G12"]}
+    extra = []
+    for cname in T_laws.CLASSES:
+        if cname != "Isotropic":
+            for ang in ([math.radians(5e-5), 1e-7, 5e-9, 5e-10] if quick else [1e-2, math.radians(1e-2), math.radians(5e-5), 1e-7, 2e-8, 5e-9, 5e-10]):
+                ax = rand_rot(rng)[:, 2] if rng.random() < 0.5 else np.array([0.0, 0.0, 1.0])
+                K = np.array([[0, -ax[2], ax[1]], [ax[2], 0, -ax[0]], [-ax[1], ax[0], 0]])
+                Rm = np.eye(3) + math.sin(ang) * K + (1 - math.cos(ang)) * (K @ K)
+                extra.append((cname, gen_params(rng, cname), [[float(x) for x in Rm[:, 0]], [float(x) for x in Rm[:, 1]]], "near-id"))
+        for sE in (2.0 ** 40, 2.0 ** -40):
+            p_ = gen_params(rng, cname)
+            for k in MODULI[cname]:
+                p_[k] = p_[k] * sE
+            extra.append((cname, p_, None if cname == "Isotropic" else list(rand_axes(rng, "3d")), "scaled-moduli"))
+    for cname, params, axes, akind in extra:
+        grp = len(req["law"])
+        for cfg, (dim, ps) in T_laws.CFGS.items():
+            req["law"].append({"cls": cname, "dim": dim, "ps": ps, "params": params, "axes": axes})
+            meta["law"].append({"cfg": cfg, "field": "scalar", "shape": (), "pts": [params], "group": grp, "akind": akind})
+        if axes is not None:
+            req["law"].append({"cls": cname, "dim": 3, "ps": False, "params": params, "axes": [[1.0, 0.0, 0.0], [0.0, 1.0, 0.0]]})
+            meta["law"].append({"cfg": "3d", "field": "scalar", "shape": (), "pts": [params], "group": len(req["law"]) - 1, "akind": "id-ref", "ref": True})
+            for k in range(grp, grp + 3):
+                meta["law"][k]["idref"] = len(req["law"]) - 1
     # ---- Get_Pmat
     for rep in range(6 if quick else 40):
         dim = rng.choice([2, 3])
@@ -649,6 +677,17 @@ def build_cases(ctx, lw):
                 arrays.update({"axis1": [0, 0, 2] if dtype == "int" else [0.0, 0.6, 0.8], "axis2": [1, 0, 0] if dtype == "int" else [1.0, 0.0, 0.0]})
             req["purity"].append({"what": "law", "cls": cname, "dtype": dtype, "dim": rng.choice([2, 3]), "fields": list(fields), "scalars": scal,
                                   "typed": list(arrays), "arrays": arrays})
+    # ---- arrays handed OUT (parameter fields, C, S, axes, helpers): in-place edits of a returned array must leave the law
+    #      unchanged or consistent with a law rebuilt from the parameters it then reports
+    for cname, fields, scal in (("Isotropic", {"E": [10.5, 20.5, 30.5]}, {"v": 0.3}),
+                                ("Isotropic", {"E": [[10.5, 20.5], [30.5, 15.0]], "v": [[0.1, 0.2], [0.3, 0.25]]}, {}),
+                                ("TransverselyIsotropic", {"El": [[100.5, 120.0], [90.0, 150.0]], "Et": [[20.0, 25.0], [30.0, 22.0]], "vt": [[0.1, 0.2], [0.3, 0.25]]}, {"Gl": 8.0, "vl": 0.1}),
+                                ("Orthotropic", {"E1": [100.5, 120.0, 90.0]}, {"E2": 50.0, "E3": 20.0, "G23": 8.0, "G13": 9.0, "G12": 10.0, "v23": 0.1, "v13": 0.2, "v12": 0.3})):
+        arrays = dict(fields)
+        if cname != "Isotropic":
+            arrays.update({"axis1": [0.0, 0.6, 0.8], "axis2": [1.0, 0.0, 0.0]})
+        req["purity"].append({"what": "out", "cls": cname, "dtype": "float", "dim": rng.choice([2, 3]), "fields": list(fields), "scalars": scal,
+                              "typed": [], "arrays": arrays, "factor": rng.choice([0.5, 1e-3])})
     # ---- boundary of the descriptor ranges: the value 0 passes PositiveParameter
     req["boundary"] = [{"cls": "Isotropic", "dim": 3, "params": {"E": 0.0, "v": 0.3}},
                        {"cls": "Isotropic", "dim": 2, "params": {"E": 0.0, "v": 0.3}},
@@ -684,7 +723,7 @@ def correspondence(ctx, lw, pm):
     # ---------------- laws
     for i, (c, m, r) in enumerate(zip(req["law"], meta["law"], impl["law"])):
         cname, cfg = c["cls"], m["cfg"]
-        count("law:%s:%s:%s:%s" % (T_laws.CLASSES[cname], cfg, m["field"], "tilted-axes" if m["akind"] == "tilted" else "axes" if c["axes"] else "noaxes"))
+        count("law:%s:%s:%s:%s" % (T_laws.CLASSES[cname], cfg, m["field"], "tilted-axes" if m["akind"] == "tilted" else m["akind"] if m["akind"] in ("near-id", "scaled-moduli") else "axes" if c["axes"] else "noaxes"))
         if "raises" in r:
             mism.append(("law#%d %s[%s]" % (i, cname, cfg), "implementation raised " + r["raises"]))
             continue
@@ -717,12 +756,12 @@ def correspondence(ctx, lw, pm):
                 one = dict(c, params=p)
                 viol.append(("law-spd-inverse:%s:%s" % (cname, cfg),
                              "%s[%s] params %s axes %s: |C S - I| = %.2e, asymmetry %.2e, min eigenvalue %.3e" % (cname, cfg, p, c["axes"], eCS, asym, lam),
-                             {"replay_py": REPLAY_LAW % dict(case=one, expected=None), "case": one}))
+                             {"replay_py": REPLAY_LAW % dict(case=one, expected=None, tol=1e-9), "case": one}))
         if worst > TOL:
             one = dict(c, params=m["pts"][0])
             Cm0, _ = law_model(lw, pm, cname, cfg, m["pts"][0], c["axes"]) if have else (None, None)
             mism.append(("law#%d %s[%s] %s" % (i, cname, cfg, m["field"]), "relative difference %.2e (params %s, axes %s)" % (worst, m["pts"][0], c["axes"]),
-                         {"replay_py": REPLAY_LAW % dict(case=one, expected=(fl(Cm0).tolist() if Cm0 is not None and not shp else None)), "case": one}))
+                         {"replay_py": REPLAY_LAW % dict(case=one, expected=(fl(Cm0).tolist() if Cm0 is not None and not shp else None), tol=1e-9), "case": one}))
         ctx.note_case("law:%s:%s:%s:%s" % (cname, cfg, m["field"], m["akind"]))
         # plane reductions on the implementation's outputs (3d case is first of its group)
         if cfg != "3d" and not m.get("ref"):
@@ -764,10 +803,11 @@ def correspondence(ctx, lw, pm):
             C0 = np.array(impl["law"][m["idref"]]["C"])
             Cr = rotate_kelvin(C0, c["axes"][0], c["axes"][1])
             e = relerr(Ci, Cr)
-            if e > PTOL:
+            ftol = 1e-11 if m["akind"] == "near-id" else PTOL      # near-aligned frames: the rotated tensor is reproduced to 1e-15
+            if e > ftol:
                 one = dict(c, params=m["pts"][0])
-                viol.append(("frame-rotation:%s" % cname, "%s: C for axes %s is not the rotated 4th-order tensor (rel. %.2e)" % (cname, c["axes"], e),
-                             {"replay_py": REPLAY_LAW % dict(case=one, expected=Cr.tolist()), "case": one}))
+                viol.append(("frame-rotation:%s" % cname, "%s: C for axes %s is not the rotated 4th-order tensor (rel. %.2e, tolerance %.0e)" % (cname, c["axes"], e, ftol),
+                             {"replay_py": REPLAY_LAW % dict(case=one, expected=Cr.tolist(), tol=ftol), "case": one}))
     # ---------------- isotropic helpers
     for i, (c, m, r) in enumerate(zip(req["law"], meta["law"], impl["law"])):
         if have and c["cls"] == "Isotropic" and "lambda" in r:
@@ -984,6 +1024,13 @@ def correspondence(ctx, lw, pm):
             mo = r["modified"][0]
             viol.append(("input-modified:%s" % (c.get("cls") or ("Anisotropic" if c["what"] == "aniso" else "Models._utils")),
                          "%s (%s-typed input): the caller's array `%s` was modified in place by %s (max change %.3g)" % (tag, c["dtype"], mo["arg"], mo["after"], mo["max_change"]), rp))
+        if c["what"] == "out":
+            if r["repeat_err"] > 1e-9:
+                viol.append(("output-aliased:%s" % c["cls"],
+                             "%s: after in-place edits of the arrays returned by %s the law reports %s but %s (rel. %.3g)"
+                             % (c["cls"], r.get("touched"), ("changed parameters %s" % r.get("params_changed")) if r.get("params_changed") else "unchanged parameters",
+                                r.get("repeat_step"), r["repeat_err"]), rp))
+            continue
         if r["repeat_err"] > 1e-12:
             viol.append(("not-repeatable:%s" % (c.get("cls") or ("Anisotropic" if c["what"] == "aniso" else "Models._utils")),
                          "%s (%s-typed input): %s gives a different result (rel. %.3g) than the first time" % (tag, c["dtype"], r.get("repeat_step"), r["repeat_err"]), rp))
